@@ -26,6 +26,8 @@ type PosR struct {
 	Claims     int
 	LiqCh      int
 	Emissions  int
+	Inherit    int64 // rounding budget inherited through forfeits: a forfeiter hands on what it really accrued, which already
+	// differs from the exact pro-rata figure by up to its own budget; each recipient inherits its share of that budget
 	Touched    bool // liquidity changed after creation (twins relation no longer applies)
 	BornSeq    int  // number of forfeit redistributions that had happened when the position was created
 	BornSwaps  int  // number of swaps that had happened when the position was created
@@ -88,7 +90,7 @@ func (w *World) retire(l *Ledger, p *Pos, fail func(a, s, d string)) {
 		}
 		l.R.GoneSpread[d] = l.R.GoneSpread[d].Add(p.R.CumSpread[d])
 	}
-	tolI := int64(p.R.Emissions + p.R.Claims + p.R.LiqCh + 3)
+	tolI := int64(p.R.Emissions+p.R.Claims+p.R.LiqCh+3) + p.R.Inherit
 	for u := range incDenoms {
 		diff := new(big.Rat).Sub(new(big.Rat).SetInt(p.R.CumInc[u].BigInt()), p.R.ExpIncPaid[u])
 		if diff.Cmp(ratInt(tolI)) > 0 || diff.Cmp(ratInt(-tolI)) < 0 {
@@ -265,11 +267,19 @@ func (w *World) redeposit(ctx sdk.Context, l *Ledger, forfeit [3]*big.Rat, claim
 			claimer.ExpIncPaid[u] = radd(claimer.ExpIncPaid[u], forfeit[u])
 			continue
 		}
+		budget := ratInt(int64(claimer.Emissions+claimer.Claims+claimer.LiqCh+2) + claimer.Inherit)
 		for i := range l.Pos {
 			q := &l.Pos[i]
 			if inRangeTick(q, tick) {
 				q.R.ExpIncAcc[u] = radd(q.R.ExpIncAcc[u], new(big.Rat).Quo(new(big.Rat).Mul(forfeit[u], ratDec(q.Liq)), L))
 				q.R.Emissions++
+				// ceil(budget * Lq / L)
+				sh := new(big.Rat).Quo(new(big.Rat).Mul(budget, ratDec(q.Liq)), L)
+				c := new(big.Int).Quo(sh.Num(), sh.Denom())
+				if !sh.IsInt() {
+					c.Add(c, big.NewInt(1))
+				}
+				q.R.Inherit += c.Int64()
 			}
 		}
 	}
@@ -348,7 +358,7 @@ func (w *World) CheckC08(ctx sdk.Context, l *Ledger, fail func(a, s, d string), 
 				vac["positions_with_earned_spread"]++
 			}
 		}
-		tolI := int64(p.R.Emissions + p.R.Claims + p.R.LiqCh + 2)
+		tolI := int64(p.R.Emissions+p.R.Claims+p.R.LiqCh+2) + p.R.Inherit
 		age := now.Sub(p.Join)
 		for u := range w.Uptime {
 			den := incDenoms[u]
